@@ -341,7 +341,8 @@ func (enc *encryptInfo) AsDict(version Version) (Dict, error) {
 }
 
 // EncryptBytes encrypts the bytes in buf using Algorithm 1 in the PDF spec.
-// This function modfies the contents of buf and may return buf.
+// The contents of buf are not modified; if no encryption is needed, buf
+// itself is returned.
 func (enc *encryptInfo) EncryptBytes(ref Reference, buf []byte) ([]byte, error) {
 	cf := enc.strF
 	if cf == nil {
@@ -382,8 +383,11 @@ func (enc *encryptInfo) EncryptBytes(ref Reference, buf []byte) ([]byte, error) 
 		if err != nil {
 			return nil, err
 		}
-		c.XORKeyStream(buf, buf)
-		return buf, nil
+		// The buffer belongs to the caller (it may be the backing array of a
+		// String which is written again later), so encrypt into a copy.
+		out := make([]byte, len(buf))
+		c.XORKeyStream(out, buf)
+		return out, nil
 	default:
 		panic("unknown cipher")
 	}
